@@ -187,6 +187,7 @@ func init() {
 		*p = &Opaque{kind: "natsconn", data: &natsConn{}}
 		return p
 	}
+	vIntrinsics["vConnNoEcho"] = vIntrinsics["vConn"]
 	vIntrinsics["vOnRequest"] = func(in *Interp, fr *frame, args []Value) Value {
 		in.connOf(args[0]).responder = args[1]
 		return nil
